@@ -58,7 +58,7 @@ def generate(seed, tier):
     K = max(2, min(K, len(used)))
     weighted = rng.random() < 0.5
     return {"seed": seed, "q": rng.choice([0.0, 0.2, 0.5]), "spec": spec, "weighted": weighted,
-            "weights": [rng.randint(1, 4) for _ in spec["edges"]], "K": K, "sut_seed": rng.randint(0, 10**5),
+            "weights": [rng.randint(1, 4) for _ in spec["edges"]], "K": K, "sut_seed": rng.choice([0, 0, 1, rng.randint(0, 10**5), rng.randint(0, 10**5), rng.randint(0, 10**5)]),
             "n_real": rng.randint(1, 3), "max_iter": rng.randint(1, 30 if tier == "quick" else 80),
             "normalizeU": rng.random() < 0.4, "baseline_r0": rng.random() < 0.5,
             "min_value_par": rng.choice([0.0, 0.0, 1e-5])}
